@@ -242,11 +242,17 @@ func runFileInput(rep *Report, in FileInput, cfB, cfR *CaseFile) {
 	// the root itself must be loadable to obtain a node at all
 	delete(fc.st.Unavailable, fc.root.KeyString())
 	var node datamodel.Node
+	var preloadReads []cid.Cid
 	o := guard(func() error {
 		var err error
 		node, err = openFile(fc.st, fc.root, in.Opener)
 		return err
 	})
+	for i, c := range fc.st.Reads {
+		if i > 0 || !c.Equals(fc.root) { // skip the request for the root itself
+			preloadReads = append(preloadReads, c)
+		}
+	}
 	if o.Class != "ok" {
 		if in.Opener == "preload" && len(in.Faults) > 0 && o.Class == "load" {
 			return // expected: C06 handles this
@@ -299,6 +305,11 @@ func runFileInput(rep *Report, in FileInput, cfB, cfR *CaseFile) {
 	}
 	var obsTerms []string
 	var opTerms []string
+	var pending []cid.Cid // blocks requested while seeking are charged to the next read
+	if in.Mode == "order" && in.Opener == "preload" {
+		// the preloading reification itself is the full read whose order is observed
+		pending = append(pending, preloadReads...)
+	}
 	for _, op := range in.Ops {
 		r, err := getReader(op.Reader)
 		if err != nil {
@@ -314,6 +325,7 @@ func runFileInput(rep *Report, in FileInput, cfB, cfR *CaseFile) {
 				got, err = r.Seek(op.Off, op.Whence)
 				return err
 			})
+			pending = append(pending, fc.st.Reads...)
 			opTerms = append(opTerms, fmt.Sprintf("(%d, OpSeek %s %d)", op.Reader, coqZ(op.Off), op.Whence))
 			obsTerms = append(obsTerms, "(BSeek "+coqRes(o, coqZ(got))+")")
 			// oracle
@@ -342,6 +354,11 @@ func runFileInput(rep *Report, in FileInput, cfB, cfR *CaseFile) {
 			}
 		case "read":
 			got, o := readFull(r, op.K)
+			if in.Mode == "order" && in.Opener == "preload" {
+				fc.st.Reads = nil // a preloaded node re-requests blocks when read again; the order observed is the preload's
+			}
+			fc.st.Reads = append(append([]cid.Cid{}, pending...), fc.st.Reads...)
+			pending = nil
 			loads := fc.loadsOf(fc.st.Reads)
 			opTerms = append(opTerms, fmt.Sprintf("(%d, OpRead %s)", op.Reader, coqZ(int64(op.K))))
 			obsTerms = append(obsTerms, fmt.Sprintf("(BRead %s %s %s)", coqBytes(got), coqStatus(o), coqNList(loads)))
@@ -598,6 +615,14 @@ func scnFiles(rep *Report, rng *Rng, tier string, outdir string) {
 			addBuild(FileInput{Width: w, Chunker: "size-1", Size: n, Seed: uint64(w)})
 		}
 	}
+	// deep, narrow trees (depth 8..10)
+	deep := [][2]int{{2, 127}, {2, 128}, {2, 129}, {2, 130}, {2, 255}, {2, 256}, {2, 257}, {2, 258}, {3, 728}, {3, 730}}
+	if tier == "thorough" {
+		deep = append(deep, [2]int{2, 513}, [2]int{2, 1025}, [2]int{3, 2187}, [2]int{3, 2188}, [2]int{4, 4097})
+	}
+	for _, d := range deep {
+		addBuild(FileInput{Width: d[0], Chunker: "size-1", Size: d[1], Seed: 7})
+	}
 	nRand := 60
 	if tier == "thorough" {
 		nRand = 3000
@@ -676,6 +701,8 @@ func scnFiles(rep *Report, rng *Rng, tier string, outdir string) {
 	for _, s := range [][3]int{{2, 1, 7}, {2, 2, 13}, {3, 1, 10}, {3, 2, 41}, {2, 3, 30}, {4, 1, 18}, {2, 1, 1}, {2, 1, 0}, {3, 4, 100}, {5, 2, 61}} {
 		specs = append(specs, fspec{w: s[0], k: s[1], size: s[2], seed: uint64(rng.Intn(200))})
 	}
+	// constant content: sibling links to the same block
+	specs = append(specs, fspec{w: 3, k: 2, size: 20, seed: 1000 + uint64(rng.Intn(200))}, fspec{w: 2, k: 1, size: 9, seed: 1000 + uint64(rng.Intn(200))})
 	for _, tr := range []bool{false, true} {
 		for _, raw := range []bool{true, false} {
 			for _, v0 := range []bool{false, true} {
@@ -777,7 +804,7 @@ func scnFiles(rep *Report, rng *Rng, tier string, outdir string) {
 		for _, k := range []int{1, s.k, s.k + 1, s.size + 5} {
 			in := base
 			in.Mode = "order"
-			in.Opener = []string{"direct", "lazy"}[k%2]
+			in.Opener = []string{"direct", "lazy", "preload"}[k%3]
 			in.Ops = []FOp{{Kind: "read", K: s.size + 5}}
 			if k < s.size {
 				in.Ops = nil
